@@ -2,8 +2,10 @@
 from __future__ import annotations
 
 import ast
+import contextlib
 import itertools
 import json
+import sys
 import time
 import typing
 from types import SimpleNamespace
@@ -20,8 +22,54 @@ from ..runner import Check
 EXT = 90
 
 
-def node(i, bases=(), members=()):
-    return {"id": i, "bases": list(bases), "members": list(members)}
+def node(i, bases=(), members=(), mark=None, root=False):
+    """`mark` (default: the id) names the model's own scalar property: two nodes with equal mark, members
+    and bases are written as IDENTICAL definitions (what --reuse-model looks for). `root`: the definition
+    is `{"type": "array", "items": $ref members[0]}` (a root model; --collapse-root-models inlines it)."""
+    n = {"id": i, "bases": list(bases), "members": list(members)}
+    if mark is not None and mark != i:
+        n["mark"] = mark
+    if root:
+        n["root"] = True
+    return n
+
+
+def mark_of(n) -> int:
+    return n.get("mark", n["id"])
+
+
+def body_key(n):
+    """equality of this key = equality of the written definition (up to its name)"""
+    seen, mem = set(), []
+    for j in n["members"]:
+        if j not in seen:
+            seen.add(j)
+            mem.append(j)
+    if n.get("root"):
+        return (True, 0, tuple(mem[:1]), ())
+    return (False, mark_of(n), tuple(mem), tuple(n["bases"]))
+
+
+def frame_depth() -> int:
+    f, d = sys._getframe(), 0
+    while f is not None:
+        d += 1
+        f = f.f_back
+    return d
+
+
+@contextlib.contextmanager
+def stack_room(extra: int | None):
+    """run the body with room for only `extra` more Python frames (None: leave the limit alone)"""
+    if extra is None:
+        yield
+        return
+    old = sys.getrecursionlimit()
+    sys.setrecursionlimit(frame_depth() + extra)
+    try:
+        yield
+    finally:
+        sys.setrecursionlimit(old)
 
 
 def refs_of(n) -> list[int]:
@@ -36,7 +84,7 @@ def sx_models(g) -> str:
 
 
 def graph_key(g) -> str:
-    return json.dumps([[n["id"], n["bases"], n["members"]] for n in g], separators=(",", ":"))
+    return json.dumps([[n["id"], n["bases"], n["members"], n.get("mark"), n.get("root")] for n in g], separators=(",", ":"))
 
 
 def base_cycle(g) -> bool:
@@ -176,11 +224,11 @@ def stub_models(g):
     return out
 
 
-def run_real_sort(models, rc=None):
-    """canonical observable result of the real sort_data_models"""
+def run_real_sort(models, rc=None, extra=None):
+    """canonical observable result of the real sort_data_models (`extra`: frames left on the stack)"""
     R = _real()
     try:
-        with watchdog(10):
+        with watchdog(30 if extra is not None else 10), stack_room(extra):
             if rc is None:
                 un, so, upd = R.pbase.sort_data_models(models)
             else:
@@ -230,6 +278,9 @@ def oracle_sort_result(g, res) -> str | None:
     ids = [n["id"] for n in g]
     if res[0] == "hang":
         return "sort_data_models does not terminate"
+    if res[0] == "recursion-error" and len(set(ids)) == len(ids) and not base_cycle(g) and closed_refs(g):
+        return ("sort_data_models ends in Python's RecursionError on a complete document with acyclic inheritance "
+                "(ordering must terminate with an order for every dependency graph)")
     if res[0] != "ok":
         return None
     if has_self_base(g):
@@ -250,6 +301,11 @@ def oracle_sort_result(g, res) -> str | None:
                 if r != n["id"] and (r not in pos or pos[r] >= pos[n["id"]]) and n["id"] not in upd:
                     return f"dependency {r} of {n['id']} neither precedes it nor is {n['id']} flagged (order {order}, flagged {upd})"
     return None
+
+
+def closed_refs(g) -> bool:
+    ids = {n["id"] for n in g}
+    return all(r in ids for n in g for r in refs_of(n))
 
 
 def campaign_sort(ck: Check, n_random: int, exhaustive_nodes: int) -> None:
@@ -340,7 +396,9 @@ def exhaustive_batches(max_nodes: int, size: int = 20000):
 
 
 def mechanism_of(why: str) -> str:
-    if "terminate" in why:
+    if "RecursionError" in why:
+        return "recursion_error"
+    if "does not terminate" in why:
         return "hang"
     if "names itself as base" in why:
         return "self_base_accepted"
@@ -349,6 +407,114 @@ def mechanism_of(why: str) -> str:
     if "base" in why:
         return "base_after_derived"
     return "dependency_unflagged"
+
+
+# ---------------------------------------------------------------------------------------------
+# the interpreter stack: graphs that need more worklist passes than there are free frames
+def deep_graph(rng, n: int, layered: bool = True):
+    """dependency graphs whose worklist needs many passes (one model resolved per pass in the worst input order);
+    `layered=False` leaves out the layered DAG (pydantic's own schema builder is exponential in its number of paths)"""
+    shape = rng.below(7)
+    if shape == 4 and not layered:
+        shape = 0
+    if shape <= 2:  # member chain i -> i+1
+        g = [node(i, (), (i + 1,) if i + 1 < n else ()) for i in range(n)]
+    elif shape == 3:  # inheritance chain, derived first
+        g = [node(i, (i + 1,) if i + 1 < n else (), ()) for i in range(n)]
+    elif shape == 4:  # layered DAG: members and bases among the next few ids
+        g = []
+        for i in range(n):
+            nxt = [j for j in range(i + 1, min(n, i + 4))]
+            mem = [j for j in nxt if rng.chance(1, 2)] or nxt[:1]
+            bas = [j for j in nxt if j not in mem and rng.chance(1, 5)]
+            g.append(node(i, bas, mem))
+    elif shape == 5:  # binary tree, parents refer to children
+        g = [node(i, (), [j for j in (2 * i + 1, 2 * i + 2) if j < n]) for i in range(n)]
+    else:  # chain that ends in a reference cycle
+        g = [node(i, (), (i + 1,) if i + 1 < n else (max(0, n - 3),)) for i in range(n)]
+    if shape == 1:
+        g = g[::-1]  # referent first: one pass
+    elif shape == 2:
+        g = rng.shuffle(g)
+    return g
+
+
+def stack_case(ck: Check, camp, g, rc, extra, kind, model_replies=None) -> None:
+    """the real function with `extra` frames left; the model says: like recursion_count = min(rc, d) for the
+    number d of nested calls that fit (stack_exhaustion_is_smaller_count)"""
+    camp.evaluations += 1
+    ms = real_models(g) if kind == "real" else stub_models(g)
+    impl = run_real_sort(ms, rc, extra)
+    camp.hit(f"n={len(g) // 10 * 10}..")
+    camp.hit("objects:" + kind)
+    camp.hit("result:" + (impl[0] if impl[0] != "err" else "err-" + str(impl[1])))
+    if impl[0] == "ok" and impl[1]:
+        camp.hit("fell back to the bubble/cycle stage (stack or count exhausted)")
+    camp.distinct.add((graph_key(g), rc, extra, kind))
+    inp = {"graph": g, "recursion_count": rc, "objects": kind, "stack_extra": extra, "target": "sort_data_models"}
+    if model_replies is not None:
+        cands = [parse_sort_reply(r) for r in model_replies]
+        match = [k for k, c in enumerate(cands) if tuple(c) == tuple(impl)]
+        if len(match) == len(cands):
+            camp.hit("stack not binding (every d of the window gives the result)")
+        elif match:
+            camp.hit("stack binding; model agrees at d = extra%+d%s" % (STACK_WINDOW[0] + match[-1], "" if len(match) == 1 else " and below"))
+        else:
+            ck.disagree(camp, inp, {"for d = extra%+d.." % STACK_WINDOW[0]: [c if c[0] != "ok" else ("ok", len(c[1]), c[2][:6], len(c[3])) for c in cands]},
+                        impl if impl[0] != "ok" else ("ok", len(impl[1]), impl[2][:6], len(impl[3])))
+    why = oracle_sort_result(g, impl)
+    if why:
+        ck.fail({"oracle": "sorter_result", "mechanism": mechanism_of(why), "self_base": has_self_base(g), "base_cycle": base_cycle(g)}, inp, why)
+    elif len(camp.samples) < 2 and impl[0] == "ok" and impl[1]:
+        camp.samples.append({"n": len(g), "recursion_count": rc, "stack_extra": extra, "unresolved_after_recursion": len(impl[1]), "flagged": len(impl[3])})
+
+
+STACK_WINDOW = (-4, 4)  # candidates for d relative to the frames left (the callee needs a frame or two of its own)
+
+
+def campaign_stack(ck: Check, n_cases: int, at_default_limit: bool) -> None:
+    camp = ck.campaign("Model.Sort.sortDataModelsS (escape hatch) vs sort_data_models on a nearly exhausted interpreter stack: deep chains / DAGs / trees")
+    t0 = time.time()
+    rng = ck.rng.fork("stack")
+    # the budget the code starts with is the interpreter's limit at import time; the theorems need nothing else about it
+    if default_rc() != sys.getrecursionlimit():
+        ck.disagree(camp, {"what": "MAX_RECURSION_COUNT"}, f"sys.getrecursionlimit() = {sys.getrecursionlimit()}", default_rc())
+    cases = []
+    for g, rc, extra in STACK_CORPUS:
+        cases.append((g, rc, extra, "stub"))
+    for k in range(n_cases):
+        n = rng.range(6, 70)
+        g = deep_graph(rng, n)
+        extra = rng.range(3, n + 14)
+        rc = None if rng.chance(3, 4) else rng.range(0, n)
+        cases.append((g, rc, extra, "stub" if k % 4 else "real"))
+    reqs, spans = [], []
+    for g, rc, extra, kind in cases:
+        if kind != "stub":
+            spans.append(None)
+            continue
+        ds = [max(0, extra + o) for o in range(STACK_WINDOW[0], STACK_WINDOW[1] + 1)]
+        spans.append((len(reqs), len(ds)))
+        reqs += [f"sort.stack 1 {d} {default_rc() if rc is None else rc} {sx_models(g)}" for d in ds]
+    replies = ck.driver.run(reqs)
+    for (g, rc, extra, kind), sp in zip(cases, spans):
+        stack_case(ck, camp, g, rc, extra, kind, None if sp is None else replies[sp[0]: sp[0] + sp[1]])
+    # a few larger ones (oracle only: the model would be slow)
+    for n, extra in ((300, 120), (400, 250)):
+        g = [node(i, (), (i + 1,) if i + 1 < n else ()) for i in range(n)]
+        stack_case(ck, camp, g, None, extra, "stub")
+    if at_default_limit:  # the real limit: more models than sys.getrecursionlimit(), referrer first
+        n = default_rc() + 60
+        g = [node(i, (), (i + 1,) if i + 1 < n else ()) for i in range(n)]
+        stack_case(ck, camp, g, None, None, "stub")
+    camp.wall_s = time.time() - t0
+
+
+STACK_CORPUS = [
+    ([node(0, (), (1,)), node(1, (), (2,)), node(2, (), ())], None, 3),
+    ([node(i, (), (i + 1,) if i < 11 else ()) for i in range(12)], None, 7),
+    ([node(i, (i + 1,) if i < 9 else (), ()) for i in range(10)], None, 5),
+]
 
 
 CORPUS = [
@@ -495,11 +661,38 @@ def campaign_sort_models(ck: Check, n_cases: int) -> None:
             ck.disagree(camp, {"imported": imp, "models": ms}, model, impl)
         elif len(camp.samples) < 2 and len(ms) > 3 and impl != "none":
             camp.samples.append({"imported": imp, "models": ms, "result": impl})
-        # the property's clause for this pass: it must not loop when every base is available
+        # the property's clauses for this pass: it must not loop when every base is available, and when it
+        # returns every class stands after its base classes of the module
         if impl == "none" and not name_cycle(ms):
             ck.fail({"oracle": "sort_models", "mechanism": "hang"}, {"imported": imp, "models": ms, "target": "__sort_models"},
                     "__sort_models keeps swapping although inheritance among the classes of the module is acyclic")
+        why = sort_models_order_violation(imp, ms, impl)
+        if why:
+            ck.fail({"oracle": "sort_models", "mechanism": "base_after_derived"}, {"imported": imp, "models": ms, "target": "__sort_models"}, why)
     camp.wall_s = time.time() - t0
+
+
+def sort_models_order_violation(imp, ms, impl) -> str | None:
+    names = [nm for nm, _ in ms]
+    if impl == "none" or len(set(names)) != len(names) or name_cycle(ms):
+        return None
+    if sorted(impl) != sorted(names):
+        return f"__sort_models returns {impl} for the classes {names}"
+    pos = {nm: k for k, nm in enumerate(impl)}
+    for nm, bs in ms:
+        for b in bs:
+            if b in pos and b != nm and b not in imp and pos[b] > pos[nm]:
+                return f"__sort_models leaves class {nm} before its base class {b}: {impl}"
+    return None
+
+
+def doc_graph_of_named(ms):
+    """classes of a __sort_models case as a graph whose generated class names M<k> sort like the given names"""
+    names = [nm for nm, _ in ms]
+    if len(set(names)) != len(names) or len(names) > 9:
+        return None
+    rank = {nm: k for k, nm in enumerate(sorted(names))}
+    return [node(rank[nm], [rank[b] for b in dict.fromkeys(bs) if b in rank and b != nm], ()) for nm, bs in ms]
 
 
 def name_cycle(ms) -> bool:
@@ -515,14 +708,18 @@ WATCHDOG_S = 6  # one generate() call takes ~20 ms
 
 def schema_doc(g, prefix=None) -> dict:
     """base edge = allOf [$ref, inline object]; member edge = property $ref; `prefix[i]` puts
-    definition i into a module (dotted key) for the modular variant"""
+    definition i into a module (dotted key) for the modular variant; a `root` node is an array of its
+    first member; nodes with equal `body_key` get identical definitions"""
 
     def key(i):
         return (prefix[i] + "." if prefix and prefix.get(i) else "") + f"M{i}"
 
     defs = {}
     for n in g:
-        props = {f"mark{n['id']}": {"type": "integer"}}
+        if n.get("root"):
+            defs[key(n["id"])] = {"type": "array", "items": {"$ref": f"#/definitions/{key(n['members'][0])}"}}
+            continue
+        props = {f"mark{mark_of(n)}": {"type": "integer"}}
         for j in n["members"]:
             props[f"r{j}"] = {"$ref": f"#/definitions/{key(j)}"}
         body = {"type": "object", "properties": props}
@@ -531,6 +728,32 @@ def schema_doc(g, prefix=None) -> dict:
         else:
             defs[key(n["id"])] = body
     return {"$schema": "http://json-schema.org/draft-07/schema#", "definitions": defs}
+
+
+def top_level(code: str):
+    """what the module binds at top level, in order: ("class", name, [bases]) and ("alias", name, target name or None);
+    and the names that get a forward-reference resolution call, in order"""
+    tree = ast.parse(code)
+    out, footer = [], []
+    for st in tree.body:
+        if isinstance(st, ast.ClassDef):
+            bases = []
+            for b in st.bases:
+                if isinstance(b, ast.Name):
+                    bases.append(b.id)
+                elif isinstance(b, ast.Attribute):
+                    bases.append(b.attr)
+                elif isinstance(b, ast.Subscript) and isinstance(b.value, ast.Name):
+                    bases.append(b.value.id)
+            out.append(("class", st.name, bases))
+        elif isinstance(st, (ast.Assign, ast.AnnAssign)):
+            tgt = st.targets[0] if isinstance(st, ast.Assign) and len(st.targets) == 1 else getattr(st, "target", None)
+            if isinstance(tgt, ast.Name):
+                out.append(("alias", tgt.id, st.value.id if isinstance(st.value, ast.Name) else None))
+        elif (isinstance(st, ast.Expr) and isinstance(st.value, ast.Call) and isinstance(st.value.func, ast.Attribute)
+              and st.value.func.attr in ("update_forward_refs", "model_rebuild") and isinstance(st.value.func.value, ast.Name)):
+            footer.append(st.value.func.value.id)
+    return out, footer
 
 
 def class_defs(code: str):
@@ -548,46 +771,136 @@ def class_defs(code: str):
     return out
 
 
-def e2e_case(ck: Check, camp, g, kind: str, opts: dict) -> None:
+def eager_use_of(code: str, ex: Exception) -> str:
+    """where a NameError at import comes from: the first top-level statement that evaluates a name bound further down"""
+    if not isinstance(ex, NameError):
+        return "none"
+    tree = ast.parse(code)
+    bound_at = {}
+    for k, st in enumerate(tree.body):
+        if isinstance(st, ast.ClassDef):
+            bound_at.setdefault(st.name, k)
+        elif isinstance(st, (ast.Assign, ast.AnnAssign)):
+            for t in (st.targets if isinstance(st, ast.Assign) else [st.target]):
+                if isinstance(t, ast.Name):
+                    bound_at.setdefault(t.id, k)
+        elif isinstance(st, (ast.Import, ast.ImportFrom)):
+            for a in st.names:
+                bound_at.setdefault((a.asname or a.name).split(".")[0], k)
+    for k, st in enumerate(tree.body):
+        if isinstance(st, ast.ClassDef):
+            for b in st.bases:
+                if isinstance(b, ast.Name) and b.id not in bound_at:
+                    return "base_never_defined"
+                later = [x.id for x in ast.walk(b) if isinstance(x, ast.Name) and bound_at.get(x.id, -1) >= k]
+                if later:
+                    return "base" if isinstance(b, (ast.Name, ast.Attribute)) else "generic_base_argument"
+        elif isinstance(st, (ast.Assign, ast.AnnAssign)) and st.value is not None:
+            if any(isinstance(x, ast.Name) and bound_at.get(x.id, -1) >= k for x in ast.walk(st.value)):
+                return "alias_rhs"
+    return "other"
+
+
+GEN_OPTS = ("keep_model_order", "reuse_model", "collapse_root_models")  # what is handed to generate()
+
+
+def e2e_case(ck: Check, camp, g, kind: str, opts: dict):
+    """`opts`: options of generate() plus "stack_extra" (frames left for the generate() call).
+    Returns the observation {"order": names as written, "footer": names with a resolution call} or None."""
     camp.evaluations += 1
     cyc = base_cycle(g)
     selfb = has_self_base(g)
     camp.hit("kind:" + kind)
-    camp.hit(f"n={len(g)}")
+    camp.hit(f"n={len(g)}" if len(g) < 10 else f"n={len(g) // 10 * 10}..")
     camp.hit("inheritance:" + ("self-base" if selfb else "cyclic" if cyc else "acyclic"))
-    if opts.get("keep_model_order"):
-        camp.hit("keep_model_order")
+    gen_opts = {k: v for k, v in opts.items() if k in GEN_OPTS}
+    for k in sorted(opts):
+        if opts[k]:
+            camp.hit(k)
+    keys = [body_key(n) for n in g]
+    twins = len(keys) - len(set(keys))
+    if twins:
+        camp.hit("identical definitions present")
+    if any(n.get("root") for n in g):
+        camp.hit("root (array) definitions present")
+    extra = opts.get("stack_extra")
     inp = {"graph": g, "kind": kind, "opts": opts, "target": "e2e"}
-    cls = {"oracle": "e2e", "kind": kind, "base_cycle": cyc, "self_base": selfb, "keep_model_order": bool(opts.get("keep_model_order"))}
-    res = e2e.run_generate(schema_doc(g), model=kind, opts=opts, timeout=WATCHDOG_S)
+    cls = {"oracle": "e2e", "kind": kind, "base_cycle": cyc, "self_base": selfb, "keep_model_order": bool(opts.get("keep_model_order")),
+           "reuse_model": bool(opts.get("reuse_model")), "collapse_root_models": bool(opts.get("collapse_root_models")),
+           "low_stack": extra is not None}
+    with stack_room(extra):
+        res = e2e.run_generate(schema_doc(g), model=kind, opts=gen_opts, timeout=WATCHDOG_S if len(g) < 40 else 60)
     if res.hang:
         ck.fail({**cls, "mechanism": "hang"}, inp, f"generate() does not terminate ({WATCHDOG_S} s watchdog)")
-        return
+        return None
+    if not res.ok and res.error_type == "RecursionError" and extra is not None:
+        # control: the same models given referent-first need one worklist pass. If that fails too the stack is
+        # too small for the rest of the pipeline (an artefact of the lowered limit), else the ordering stage is the reason
+        ctrl = sorted(g, key=lambda n: -n["id"]) if all(r > n["id"] for n in g for r in refs_of(n)) else None
+        if ctrl is not None:
+            with stack_room(extra):
+                res2 = e2e.run_generate(schema_doc(ctrl), model=kind, opts=gen_opts, timeout=60)
+            if not res2.ok:
+                camp.hit("stack too small for the pipeline itself (control fails too)")
+                camp.unmodelled += 1
+                return None
     if not res.ok:
         if cyc:
             camp.hit("reported-error(cyclic inheritance)")
         else:
-            ck.fail({**cls, "mechanism": "error_on_acyclic"}, inp, f"generate() raised {res.error_type}: {res.error_msg} although inheritance is acyclic")
-        return
+            mech = "recursion_error" if res.error_type == "RecursionError" else "error_on_acyclic"
+            ck.fail({**cls, "mechanism": mech}, inp, f"generate() raised {res.error_type}: {res.error_msg} although inheritance is acyclic")
+        return None
     camp.distinct.add((graph_key(g), kind, json.dumps(opts, sort_keys=True)))
     err = e2e.parses(res.code)
     if err:
         ck.fail({**cls, "mechanism": "unparsable"}, inp, err)
-        return
-    defs = class_defs(res.code)
+        return None
+    defs, footer = top_level(res.code)
+    by_id = {n["id"]: n for n in g}
     expected = sorted(f"M{n['id']}" for n in g)
-    names = [nm for nm, _ in defs]
-    if "Model" in names:  # the document root (no definition of ours is called Model)
-        names.remove("Model")
-    if sorted(names) != expected:
-        ck.fail({**cls, "mechanism": "lost_or_duplicated"}, inp, f"top-level classes {names} but definitions {expected}")
-        return
-    pos = {nm: k for k, (nm, _) in enumerate(defs)}
-    for nm, bases in defs:
-        for b in bases:
-            if b in pos and b in expected and pos[b] >= pos[nm]:
-                ck.fail({**cls, "mechanism": "base_after_derived"}, inp, f"class {nm}({', '.join(bases)}) is written before its base {b}; order {[d[0] for d in defs]}")
-                return
+    ours = [d for d in defs if d[1] in expected]
+    names = [d[1] for d in ours]
+    missing = [x for x in expected if x not in names]
+    if opts.get("collapse_root_models"):  # the option removes root models that were inlined where they are used
+        missing = [x for x in missing if not by_id[int(x[1:])].get("root")]
+    extras = [d[1] for d in defs if d[1] not in expected and d[1] != "Model"]  # Model: the document root
+    if missing or extras or len(set(names)) != len(names):
+        ck.fail({**cls, "mechanism": "lost_or_duplicated"}, inp, f"top-level definitions {names + extras} but definitions {expected}")
+        return None
+    pos = {nm: k for k, nm in enumerate(names)}
+    for what, nm, info in ours:
+        n = by_id[int(nm[1:])]
+        if what == "alias" and not n.get("root"):
+            # an object definition may only be written as `X = Y` by --reuse-model, for a Y with an identical definition
+            tgt = by_id.get(int(info[1:])) if info and info in pos else None
+            if not (opts.get("reuse_model") and tgt is not None and body_key(tgt) == body_key(n)):
+                ck.fail({**cls, "mechanism": "lost_or_duplicated"}, inp, f"definition {nm} is not written as a class but as `{nm} = {info}`")
+                return None
+            if pos[info] >= pos[nm]:
+                ck.fail({**cls, "mechanism": "base_after_derived"}, inp, f"`{nm} = {info}` is written before {info}; order {names}")
+                return None
+        if what == "class":
+            for b in info:
+                if b in pos and pos[b] >= pos[nm]:
+                    ck.fail({**cls, "mechanism": "base_after_derived"}, inp, f"class {nm}({', '.join(info)}) is written before its base {b}; order {names}")
+                    return None
+    old_limit = sys.getrecursionlimit()
+    if len(g) > 40:  # pydantic builds the schema of a chain of models recursively: give the USE of the module a normal-sized stack
+        sys.setrecursionlimit(max(old_limit, 40 * len(g) + 2000))
+    try:
+        with watchdog(30):
+            return _use_module(ck, camp, g, kind, opts, inp, cls, res, names, pos, by_id, footer)
+    except Hang:
+        # pydantic's own schema builder is exponential in the number of reference paths of a layered DAG: not the generator
+        camp.hit("use of the module exceeds 30 s (pydantic schema builder)")
+        camp.unmodelled += 1
+        return None
+    finally:
+        sys.setrecursionlimit(old_limit)
+
+
+def _use_module(ck, camp, g, kind, opts, inp, cls, res, names, pos, by_id, footer):
     try:
         mod = e2e.load_module(res.code, kind)
     except TypeError as ex:
@@ -595,16 +908,22 @@ def e2e_case(ck: Check, camp, g, kind: str, opts: dict) -> None:
         if "method resolution order" in msg or "duplicate base class" in msg:
             camp.hit("python-rejects-base-list(MRO)")  # no order of classes could help: outside C11
             camp.unmodelled += 1
-            return
+            return None
         ck.fail({**cls, "mechanism": "import_error"}, inp, f"import of the emitted module fails: {type(ex).__name__}: {ex}")
-        return
+        return None
     except Exception as ex:  # noqa: BLE001
-        ck.fail({**cls, "mechanism": "import_error"}, inp, f"import of the emitted module fails: {type(ex).__name__}: {str(ex)[:200]}")
-        return
+        ck.fail({**cls, "mechanism": "import_error", "eager_use": eager_use_of(res.code, ex)}, inp,
+                f"import of the emitted module fails: {type(ex).__name__}: {str(ex)[:200]}")
+        return None
     try:
         for n in g:
+            if f"M{n['id']}" not in pos:
+                continue
             c = getattr(mod, f"M{n['id']}")
-            sample = {f"r{j}": {} for j in set(n["members"])}
+            if n.get("root"):
+                sample = []
+            else:
+                sample = {f"r{j}": ([] if by_id[j].get("root") else {}) for j in set(n["members"]) if j in by_id}
             try:
                 # every model must be usable as emitted: members that refer to other models are exercised
                 if kind == "pydantic_v2.BaseModel":
@@ -614,8 +933,10 @@ def e2e_case(ck: Check, camp, g, kind: str, opts: dict) -> None:
                 else:
                     typing.get_type_hints(c)
             except Exception as ex:  # noqa: BLE001
-                ck.fail({**cls, "mechanism": "unresolved_forward_ref"}, inp, f"M{n['id']} is not usable after import: {type(ex).__name__}: {str(ex)[:200]}")
-                return
+                reuse_sub = bool(opts.get("reuse_model")) and any(body_key(m) == body_key(n) and pos.get(f"M{m['id']}", 1 << 30) < pos[f"M{n['id']}"] for m in g)
+                ck.fail({**cls, "mechanism": "unresolved_forward_ref", "reuse_subclass": reuse_sub}, inp,
+                        f"M{n['id']} is not usable after import: {type(ex).__name__}: {str(ex)[:200]}")
+                return None
             try:
                 if kind == "pydantic_v2.BaseModel":
                     c.model_rebuild(force=True)
@@ -623,11 +944,12 @@ def e2e_case(ck: Check, camp, g, kind: str, opts: dict) -> None:
                     c.update_forward_refs()
             except Exception as ex:  # noqa: BLE001
                 ck.fail({**cls, "mechanism": "rebuild_fails"}, inp, f"M{n['id']}: {type(ex).__name__}: {str(ex)[:200]}")
-                return
+                return None
     finally:
         e2e.unload(mod)
-    if len(camp.samples) < 2 and len(g) >= 4 and any(n["bases"] for n in g):
-        camp.samples.append({"graph": g, "kind": kind, "opts": opts, "class_order": [d[0] for d in defs]})
+    if len(camp.samples) < 2 and len(g) >= 4 and len(g) < 12 and any(n["bases"] for n in g):
+        camp.samples.append({"graph": g, "kind": kind, "opts": opts, "class_order": names})
+    return {"order": names, "footer": [x for x in footer if x in pos]}
 
 
 def campaign_e2e(ck: Check, n_graphs: int) -> None:
@@ -647,6 +969,208 @@ def campaign_e2e(ck: Check, n_graphs: int) -> None:
         opts = {"keep_model_order": True} if rng.chance(1, 4) else {}
         for kind in E2E_KINDS if i % 2 == 0 else [rng.choice(E2E_KINDS)]:
             e2e_case(ck, camp, g, kind, opts)
+    camp.wall_s = time.time() - t0
+
+
+# ---------------------------------------------------------------------------------------------
+# post-passes that change the list of models after the sorter ran: --reuse-model, --collapse-root-models
+def clean(g):
+    ids = {n["id"] for n in g}
+    for n in g:
+        n["bases"] = [b for b in n["bases"] if b in ids and b != n["id"]]
+        n["members"] = [m for m in n["members"] if m in ids]
+    return g
+
+
+def post_graph(rng, roots: bool):
+    """a graph with identical definitions (twins) — half of the time inside a reference cycle built on purpose —
+    and optionally root (array) definitions that other models use"""
+    if rng.chance(1, 2):
+        k = rng.range(2, 4)  # a member cycle 0 -> 1 -> … -> 0, sometimes with a chord or an inheritance edge
+        g = [node(i, (), ((i + 1) % k,)) for i in range(k)]
+        if rng.chance(1, 3):
+            g[rng.below(k)]["members"].append(rng.below(k))
+        if rng.chance(1, 3):
+            g.append(node(k, (rng.below(k),), (rng.below(k),) if rng.chance(1, 2) else ()))
+    else:
+        g = clean(random_graph(rng, 5))
+        if base_cycle(g):
+            g = [dict(n, bases=[b for b in n["bases"] if b < n["id"]]) for n in g]
+    nxt = max(n["id"] for n in g) + 1
+    for _ in range(rng.range(1, 2)):
+        src = rng.choice([n for n in g if not n.get("root")])
+        g.insert(rng.below(len(g) + 1), node(nxt, src["bases"], src["members"], mark=mark_of(src)))
+        nxt += 1
+    if roots:
+        for _ in range(rng.range(1, 2)):
+            tgt = rng.choice(g)["id"]
+            g.insert(rng.below(len(g) + 1), node(nxt, (), (tgt,), root=True))
+            for user in rng.sample([n for n in g if not n.get("root")], rng.range(1, 2)):
+                user["members"] = user["members"] + [nxt]
+            nxt += 1
+        # twins may have lost their identity when a user got a root member: that is fine, both kinds occur
+    return rng.shuffle(g) if rng.chance(1, 2) else g
+
+
+def predict_footers(ck: Check, camp, obs) -> None:
+    """the footer the MODEL predicts (sorter flags, then __reuse_model) against the calls written into the module"""
+    todo = [(g, kind, opts, o) for g, kind, opts, o in obs if o is not None and kind != "dataclasses.dataclass" and not has_self_base(g)]
+    replies = ck.driver.run([f"sort.data {default_rc()} {sx_models(g)}" for g, _, _, _ in todo])
+    reqs, idx = [], []
+    for k, ((g, kind, opts, o), rep) in enumerate(zip(todo, replies)):
+        m = parse_sort_reply(rep)
+        if m[0] != "ok":
+            ck.disagree(camp, {"graph": g, "kind": kind, "opts": opts}, m, "generate() succeeded")
+            continue
+        keyid: dict = {}
+        by_id = {n["id"]: n for n in g}
+        order = m[2]
+        if opts.get("reuse_model"):
+            pairs = " ".join("(%d %d)" % (i, keyid.setdefault(body_key(by_id[i]), len(keyid))) for i in order)
+        else:
+            pairs = " ".join("(%d %d)" % (i, j) for j, i in enumerate(order))  # all keys distinct: the pass does nothing
+        reqs.append(f"sort.reuse ({pairs}) ({' '.join(map(str, m[3]))})")
+        idx.append(k)
+    for k, rep in zip(idx, ck.driver.run(reqs)):
+        g, kind, opts, o = todo[k]
+        assert rep.startswith("ok "), rep
+        foot = rep[rep.rindex("(") + 1: rep.rindex(")")].split()
+        want = ["M" + t.rstrip("r") for t in foot]
+        want = [w for w in want if w in o["order"]]  # collapsed root models are gone
+        have = o["footer"]
+        camp.hit("footer:%s" % ("empty" if not have else "nonempty"))
+        if any(t.endswith("r") for t in foot):
+            camp.hit("footer names a reuse subclass")
+        if (sorted(want) != sorted(have)) if opts.get("keep_model_order") else (want != have):
+            ck.disagree(camp, {"graph": g, "kind": kind, "opts": opts, "what": "forward-reference footer"}, want, have)
+
+
+# ---------------------------------------------------------------------------------------------
+# Parser.__reuse_model on real DataModel objects
+def real_models_marked(g):
+    """like real_models, plus the scalar member `mark<k>` that makes renderings differ or coincide"""
+    R = _real()
+    ms = real_models(g)
+    for n, m in zip(g, ms):
+        m.fields.insert(0, R.DataModelField(name=f"mark{mark_of(n)}", data_type=R.DataType(type="int"), required=False))
+    return ms
+
+
+def campaign_reuse(ck: Check, n_cases: int) -> None:
+    camp = ck.campaign("Model.Sort.reusePass / emitFooter vs Parser._Parser__reuse_model on real DataModel objects (paths, bases, update-action list)")
+    t0 = time.time()
+    rng = ck.rng.fork("reuse")
+    fn = _real().pbase.Parser._Parser__reuse_model
+    cases = [g for g, _ in POST_CORPUS if not any(n.get("root") for n in g)]
+    for _ in range(n_cases):
+        cases.append(clean(random_graph(rng, 5)) if rng.chance(1, 6) else post_graph(rng, False))
+    reqs, keep = [], []
+    for g in cases:
+        g = [n for n in g]
+        flagged = [n["id"] for n in g if rng.chance(1, 2)]
+        keyid: dict = {}
+        pairs = " ".join("(%d %d)" % (n["id"], keyid.setdefault(body_key(n), len(keyid))) for n in g)
+        reqs.append(f"sort.reuse ({pairs}) ({' '.join(map(str, flagged))})")
+        keep.append((g, flagged))
+    for (g, flagged), rep in zip(keep, ck.driver.run(reqs)):
+        camp.evaluations += 1
+        ms = real_models_marked(g)
+        upd = [path_of(i) for i in flagged]
+        try:
+            fn(SimpleNamespace(reuse_model=True), ms, upd)
+        except Exception as ex:  # noqa: BLE001
+            ck.disagree(camp, {"graph": g, "flagged": flagged}, rep, f"raised {type(ex).__name__}: {ex}")
+            continue
+
+        def show(path):
+            return str(id_of(path.removesuffix("/reuse"))) + ("r" if path.endswith("/reuse") else "")
+
+        impl_models = " ".join(
+            "(%s %s)" % (show(m.path), show(m.base_classes[0].reference.path) if m.path.endswith("/reuse") else "-") for m in ms
+        )
+        impl_footer = " ".join(show(m.path) for m in ms if m.path in upd)
+        impl = "ok (%s) (%s) (%s)" % (impl_models, " ".join(show(u) for u in upd), impl_footer)
+        twins = len(g) - len({body_key(n) for n in g})
+        camp.hit(f"identical definitions: {min(twins, 3)}{'+' if twins > 3 else ''}")
+        if "r" in impl_footer:
+            camp.hit("a reuse subclass is in the footer")
+        camp.distinct.add((graph_key(g), tuple(flagged)))
+        if impl != rep:
+            ck.disagree(camp, {"graph": g, "flagged": flagged}, rep, impl)
+        elif len(camp.samples) < 2 and "r" in impl_footer:
+            camp.samples.append({"graph": g, "flagged": flagged, "result": impl})
+    camp.wall_s = time.time() - t0
+
+
+def campaign_e2e_post(ck: Check, n_graphs: int) -> None:
+    camp = ck.campaign("e2e with post-passes (--reuse-model, --collapse-root-models, --keep-model-order): identical definitions inside cycles, "
+                       "root models; classes, import, every model usable; footer vs Model.Sort.emitFooter")
+    t0 = time.time()
+    rng = ck.rng.fork("e2e-post")
+    obs = []
+    cases = [(g, kind, opts) for g, opts in POST_CORPUS for kind in E2E_KINDS]
+    for i in range(n_graphs):
+        roots = rng.chance(1, 3)
+        g = post_graph(rng, roots)
+        pick = rng.below(6)
+        opts = [{"reuse_model": True}, {"reuse_model": True}, {"collapse_root_models": True}, {"reuse_model": True, "collapse_root_models": True},
+                {"reuse_model": True, "keep_model_order": True}, {}][pick]
+        kinds = E2E_KINDS[:2] if roots else E2E_KINDS  # a root model of dataclass output is an eagerly evaluated alias (not modelled)
+        for kind in kinds if i % 2 == 0 else [rng.choice(kinds)]:
+            cases.append((g, kind, dict(opts)))
+    for g, kind, opts in cases:
+        obs.append((g, kind, opts, e2e_case(ck, camp, g, kind, opts)))
+    predict_footers(ck, camp, obs)
+    camp.wall_s = time.time() - t0
+
+
+POST_CORPUS = [
+    # two identical definitions that point into a cycle, the duplicate between the first copy and the cycle partner
+    ([node(0, (), (2,)), node(1, (), (2,), mark=0), node(2, (), (0,))], {"reuse_model": True}),
+    ([node(2, (), (0,)), node(1, (), (2,), mark=0), node(0, (), (2,))], {"reuse_model": True}),
+    ([node(0, (), (0,)), node(1, (), (0,), mark=0)], {"reuse_model": True}),
+    ([node(0, (), (2,)), node(1, (), (0,), root=True), node(2, (), (1,))], {"collapse_root_models": True}),
+]
+
+
+def campaign_e2e_deep(ck: Check, n_cases: int) -> None:
+    camp = ck.campaign("e2e on a nearly exhausted interpreter stack: deep chains / DAGs / trees -> generate() ends with every class, module usable")
+    t0 = time.time()
+    rng = ck.rng.fork("e2e-deep")
+    for k in range(n_cases):
+        extra = rng.range(90, 130)
+        n = extra + rng.range(-40, 40)
+        g = deep_graph(rng, n, layered=False)
+        kind = E2E_KINDS[k % 3] if k % 2 else "pydantic_v2.BaseModel"
+        e2e_case(ck, camp, g, kind, {"stack_extra": extra})
+    camp.wall_s = time.time() - t0
+
+
+def campaign_e2e_keep_order(ck: Check, n_cases: int) -> None:
+    """--keep-model-order: inheritance forests whose class names sort in every relation to the inheritance direction"""
+    camp = ck.campaign("e2e --keep-model-order: inheritance chains/forests x every assignment of names (reverse-alphabetical chains included)")
+    t0 = time.time()
+    rng = ck.rng.fork("e2e-keep")
+    cases = []
+    for d in range(2, 8):  # M0(M1), M1(M2), …: names sort opposite to the inheritance direction
+        cases.append([node(i, (i + 1,) if i + 1 < d else (), ()) for i in range(d)])
+    for _ in range(n_cases):
+        n = rng.range(3, 8)
+        perm = rng.shuffle(list(range(n)))  # perm[k] = id of the k-th model in dependency order
+        g = []
+        for k in range(n):
+            bases = []
+            if k and rng.chance(4, 5):
+                bases.append(perm[rng.range(max(0, k - 2), k - 1)])
+                if k > 1 and rng.chance(1, 8):
+                    b2 = perm[rng.below(k)]
+                    if b2 not in bases:
+                        bases.append(b2)
+            members = [perm[rng.below(n)]] if rng.chance(1, 4) else []
+            g.append(node(perm[k], bases, members))
+        cases.append(rng.shuffle(g))
+    for i, g in enumerate(cases):
+        e2e_case(ck, camp, g, "pydantic_v2.BaseModel" if i % 3 else "dataclasses.dataclass", {"keep_model_order": True})
     camp.wall_s = time.time() - t0
 
 
@@ -724,13 +1248,45 @@ def search_e2e(ck: Check) -> None:
     """a theorem or the correspondence broke: look for an input on which the property's oracle fails"""
     camp = ck.campaign("search: disagreeing graphs and all small graphs end-to-end")
     seen = set()
+    # disagreements of the alphabetical pass, embedded into a complete document (class names that sort alike)
+    for d in ck.disagreements[:200]:
+        if isinstance(d.input, dict) and "models" in d.input:
+            g = doc_graph_of_named([(nm, list(bs)) for nm, bs in d.input["models"]])
+            if g is None or base_cycle(g) or graph_key(g) in seen:
+                continue
+            seen.add(graph_key(g))
+            for kind in ("pydantic_v2.BaseModel", "dataclasses.dataclass"):
+                e2e_case(ck, camp, g, kind, {"keep_model_order": True})
+                if ck.failures:
+                    return
+    # disagreements of the end-to-end ties (footer, stack): the same document and options again, every kind
+    for d in ck.disagreements[:200]:
+        if isinstance(d.input, dict) and "graph" in d.input and ("opts" in d.input or "stack_extra" in d.input):
+            opts = dict(d.input.get("opts") or {})
+            if d.input.get("stack_extra") is not None:
+                opts["stack_extra"] = d.input["stack_extra"] + 90  # generate() needs some room of its own
+            g = clean([dict(n) for n in d.input["graph"]])
+            key = graph_key(g) + json.dumps(opts, sort_keys=True)
+            if key in seen or len({n["id"] for n in g}) != len(g) or has_self_base(g):
+                continue
+            seen.add(key)
+            for kind in E2E_KINDS:
+                if kind == "dataclasses.dataclass" and any(n.get("root") for n in g):
+                    continue
+                e2e_case(ck, camp, g, kind, opts)
+                if ck.failures:
+                    return
     graphs = [d.input["graph"] for d in ck.disagreements if isinstance(d.input, dict) and "graph" in d.input]
     for g in graphs[:40]:
         g = [dict(n, bases=[b for b in n["bases"] if b < EXT], members=[m for m in n["members"] if m < EXT]) for n in g]
         if graph_key(g) in seen or len({n["id"] for n in g}) != len(g):
             continue
         seen.add(graph_key(g))
+        if len(g) > 40:
+            continue
         for kind in E2E_KINDS:
+            if kind == "dataclasses.dataclass" and any(n.get("root") for n in g):
+                continue
             e2e_case(ck, camp, g, kind, {})
             if ck.failures:
                 return
@@ -782,13 +1338,20 @@ def run(ck: Check) -> None:
     ck.assumptions += [
         "sort_data_models reads of a model only path, reference_classes and base_classes[i].reference.path (by reading; the stand-in objects of the exhaustive campaigns expose exactly these)",
         "paths of the models handed to the sorter are pairwise distinct (C06: the resolver keeps one model per path); the overwrite on equal paths is modelled and exhibited (sort_loses_duplicate_path)",
-        "Python's own RecursionError (recursion deeper than the interpreter stack) is not modelled; sort_total covers recursion_count >= number of models",
+        "Python's own RecursionError is modelled as striking at the nested call of sort_data_models or in the callee before its first write (sortGoS); observed on the real function with stand-in objects whose attributes are plain values; with real DataModel objects only the result oracle is applied",
+        "the generator's pipeline apart from the ordering stage needs some stack of its own: end-to-end runs on a lowered recursion limit that also fail for the referent-first order of the same models are counted as unmodelled, not as failures",
+        "__reuse_model is modelled for object models (Enum and type-alias branches: end-to-end oracle only); equality of renderings is represented by a key computed from the written definition (mark, members, bases)",
         "the end-to-end oracle treats a base list that Python itself rejects (MRO conflict, duplicate base) as outside C11: no order of classes could repair it",
     ]
     campaign_sort(ck, 500 if quick else 5000, 3 if quick else 4)
+    campaign_stack(ck, 120 if quick else 600, not quick)
     campaign_bubble(ck, 4 if quick else 5)
+    campaign_e2e_keep_order(ck, 60 if quick else 500)  # before the function-level campaign: a failing DOCUMENT becomes the replay
     campaign_sort_models(ck, 600 if quick else 6000)
     campaign_e2e(ck, 240 if quick else 2000)
+    campaign_reuse(ck, 200 if quick else 2000)
+    campaign_e2e_post(ck, 120 if quick else 900)
+    campaign_e2e_deep(ck, 10 if quick else 60)
     campaign_e2e_modular(ck, 80 if quick else 400)
     ck.search_hooks.append(search_e2e)
     known_findings(ck)
@@ -803,7 +1366,7 @@ def replay(ck: Check, path: str) -> int:
     if target == "sort_data_models":
         g = inp["graph"]
         ms = real_models(g) if inp.get("objects") == "real" else stub_models(g)
-        res = run_real_sort(ms, inp.get("recursion_count"))
+        res = run_real_sort(ms, inp.get("recursion_count"), inp.get("stack_extra"))
         why = oracle_sort_result(g, res)
         print("sort_data_models ->", res)
         if res == ("err", "circularBases") and not base_cycle(g):
@@ -820,6 +1383,9 @@ def replay(ck: Check, path: str) -> int:
         print("__sort_models ->", impl)
         if impl == "none" and not name_cycle(ms):
             ck.fail({"oracle": "sort_models", "mechanism": "hang"}, inp, "__sort_models keeps swapping although inheritance among the classes of the module is acyclic")
+        why = sort_models_order_violation(inp["imported"], ms, impl)
+        if why:
+            ck.fail({"oracle": "sort_models", "mechanism": "base_after_derived"}, inp, why)
     for f in ck.failures:
         print("REPLAY-FAILS:", json.dumps(f.classification), f.observed[:300])
     if not ck.failures:
